@@ -68,10 +68,10 @@ def gen_search_patterns(rng, tree, vpattern, pep_ok, count, first_marker, allow_
     for _ in range(count):
         m = "@k%d" % marker_no
         marker_no += 1
-        shape = rng.choice(["A", "A", "B", "B", "C", "C", "D", "E", "E", "G"])
+        shape = rng.choice(["A", "A", "B", "B", "C", "C", "D", "E", "E", "G", "H"])
         if shape == "C" and not pep_ok:
             shape = "A"
-        if is_legacy and shape == "G":
+        if is_legacy and shape in ("G",):
             shape = "B"
         if shape == "A":
             prefix, region, suffix = m + ": ", "{version}", ""
@@ -83,6 +83,10 @@ def gen_search_patterns(rng, tree, vpattern, pep_ok, count, first_marker, allow_
             prefix, region, suffix = style[0], "{pep440_version}", style[1]
         elif shape == "D":
             prefix, region, suffix = m + " v=", vpattern, rng.choice(["", ";", '"'])
+        elif shape == "H":
+            # comment-like and separator characters *inside* a pattern (a value must not be cut at ' #' or ' ;')
+            prefix, region = m + " = ", "{version}"
+            suffix = rng.choice([" # latest", " ; stable", " #tag; x", ' # "quoted"'])
         elif shape == "G":
             # literal text with characters that must be matched literally
             lit = rng.choice(["(c)", "v.", "a+b", "what?", "x*", "f(x)", "\\[tag\\]", "<->", "::"])
@@ -186,7 +190,7 @@ def pep_friendly(vpattern):
 
 
 def gen_project(rng, mode="plain", syntaxes=None, allow_mixed=True, max_files=4, family=None, vcs="maybe",
-                allow_odd_paths=True, allow_glob=True, pep_any=False, force_pep=False, zero_bid=False, legacy=False):
+                allow_odd_paths=True, allow_glob=True, pep_any=False, force_pep=False, zero_bid=False, legacy=False, clock_patterns=True):
     while True:
         if legacy:
             pat = {"pattern": rng.choice(gp.LEGACY_PATTERNS), "family": "legacy", "unit": None}
@@ -240,6 +244,26 @@ def gen_project(rng, mode="plain", syntaxes=None, allow_mixed=True, max_files=4,
                              "suffix": ""})
             f = gen_file(rng, path, pats, mode, regime)
         files.append(f)
+    # README-style calendar patterns next to a version pattern that carries no year ("Copyright (c) 2018-YYYY")
+    clock_slots = False
+    if clock_patterns and not legacy and not (set(rp.fields_of(tree)) & {"year_y", "year_g"}) and files and rng.random() < 0.4:
+        f = rng.choice([x for x in files if not x.get("bare")] or files)
+        if not f.get("bare"):
+            m = "@k%d" % marker
+            marker += 1
+            style = rng.choice([("%s (c) 2018-" % m, "YYYY", " corp"), ("%s built " % m, "YYYY-0M-0D", ""),
+                                ("%s (c) " % m, "YYYY", ";")])
+            ypat = {"raw": style[0] + style[1] + style[2], "prefix": style[0], "region": style[1], "suffix": style[2]}
+            if not ini or configsyn.ini_expressible_pattern(ypat["raw"]):
+                idx = len(f["patterns"])
+                f["patterns"].append(ypat["raw"])
+                end = f["lines"][-1]["end"] if f["lines"] else "\n"
+                sep = {"lf": "\n", "crlf": "\r\n", "cr": "\r", "mixed": "\n"}[f["regime"]]
+                if f["lines"] and f["lines"][-1]["end"] == "":
+                    f["lines"][-1]["end"] = sep
+                f["lines"].append({"segs": [filler(rng, "plain", False) + " ", ypat["prefix"], {"slot": ypat["region"], "pat": idx},
+                                            ypat["suffix"]], "end": end})
+                clock_slots = True
     # config entries: explicit path, a glob that matches exactly this file, or the patterns split over two entries
     entries = []
     for f in files:
@@ -309,5 +333,6 @@ def gen_project(rng, mode="plain", syntaxes=None, allow_mixed=True, max_files=4,
         name = rng.choice(["notes.txt", "src/pkg/other.py", "LICENSE", "data.bin"])
         extra[name] = (filler(rng, mode, True, 30) + "\n" + vtext + "\n").encode("utf-8")
     return {"version_pattern": vpattern, "state": state, "epoch": epoch.isoformat(), "syntax": syntax, "cfg_glob": cfg_glob,
+            "clock_slots": clock_slots,
             "style": style, "cfg": cfg, "cfg_regime": cfg_regime, "files": files, "extra": {k: v.decode("utf-8") for k, v in extra.items()},
             "vcs": vcs_spec, "pep_ok": pep_ok, "unit": pat["unit"], "family": pat["family"]}
